@@ -17,6 +17,7 @@ func init() {
 	vt.Register("liveness", 0.5, c19GenLive, c19CheckLive)
 	vt.Register("recovery", 0.5, c19GenRecovery, c19CheckLive)
 	vt.Register("proposal", 0.3, c19GenProp, c19CheckProp)
+	vt.Register("storyline", 0.25, c19GenStory, c19CheckStory)
 }
 
 func TestProp(t *testing.T) {
